@@ -31,3 +31,29 @@ package vm
 //@   let r = GetDifficultyForPlasma(p)
 //@   assert[inverse] powPlasma(r.0) == p
 //@   assert[monotone] forall a int, b int :: 0 <= a && a <= b ==> powPlasma(a) <= powPlasma(b)
+
+// ---- C01 / C03: sends debit the sender exactly once and never more than it holds; receives credit the send's amount once ----
+//@ func enoughFunds(context, block)
+//@   requires block != nil && block.Amount != nil
+//@   ensures[covered] result ==> block.TokenStandard == types.ZeroTokenStandard || context.balance[block.TokenStandard] >= val(block.Amount)
+//@   ensures[refused] !result ==> context.balance[block.TokenStandard] < val(block.Amount)
+//@   modifies nothing
+
+//@ func VM.applySend(vm, block)
+//@   requires vm != nil && block != nil && block.Amount != nil
+//@   ensures[spends-what-it-holds] result == nil ==> old(vm.context.balance[block.TokenStandard]) >= val(block.Amount)
+//@   ensures[debit-once] result == nil ==> vm.context.balance == store(old(vm.context.balance), block.TokenStandard, old(vm.context.balance[block.TokenStandard]) - val(block.Amount))
+//@   ensures[rejected-unchanged] result != nil ==> vm.context.balance == old(vm.context.balance)
+//@   ensures[amount-untouched] block.Amount == old(block.Amount) && val(block.Amount) == old(val(block.Amount)) && block.TokenStandard == old(block.TokenStandard)
+//@   modifies vm.context.balance, block.Data
+
+// The receive credits the amount and token of the stored send block (not any field of the receive block) and marks exactly
+// that send as received.
+//@ spec sendOf(vm *VM, h arr) *nom.AccountBlock = ptr("*nom.AccountBlock", iface("store.Momentum", vm.context.momentumStore).blockByHash[h])
+//@ func VM.applyReceive(vm, block)
+//@   requires vm != nil && block != nil
+//@   requires sendOf(vm, block.FromBlockHash) != nil && sendOf(vm, block.FromBlockHash).Amount != nil
+//@   ensures[credit-send-amount] result == nil ==> vm.context.balance == store(old(vm.context.balance), sendOf(vm, block.FromBlockHash).TokenStandard, old(vm.context.balance[sendOf(vm, block.FromBlockHash).TokenStandard]) + val(sendOf(vm, block.FromBlockHash).Amount))
+//@   ensures[marked] result == nil ==> vm.context.received == store(old(vm.context.received), block.FromBlockHash, true)
+//@   ensures[rejected-unchanged] result != nil ==> vm.context.balance == old(vm.context.balance)
+//@   modifies vm.context.balance, vm.context.received
